@@ -192,7 +192,7 @@ def generate(seed, tier, cfg):
             at = f.choice((0, 0, 1, 2, 3, 5, 8))
             err = {"F1": f.choice((28, 13, 2)), "F2": f.choice((28, 5)), "F3": 28, "F4": 0, "F5": f.choice((2, 13)), "F6": 5}[kind]
             faults.append({"kind": kind, "path": "*", "at": at if kind in ("F2", "F4", "F6") else 0, "errno": err, "op_index": oi, "frac": (round(f.random(), 3) if kind in ("F2", "F4", "F6") and f.random() < 0.5 else None)})
-    return {"workload": asc, "ops": ops, "faults": faults, "knobs": {"mode": mode, "policy": policy, "min_ppq": min_ppq, "velocity": velocity, "chunk": k.choice((1, 7, 16, 0, 0)), "bufsize": k.choice((-1, 16, 512)), "late_structure": k.random() < 0.3}}
+    return {"workload": asc, "ops": ops, "faults": faults, "knobs": {"mode": mode, "policy": policy, "min_ppq": min_ppq, "velocity": velocity, "chunk": k.choice((1, 7, 16, 0, 0)), "bufsize": k.choice((-1, 16, 512)), "late_structure": k.random() < 0.3, "late_divs": k.random() < 0.3}}
 
 
 # ----------------------------------------------------------------------------
@@ -420,7 +420,7 @@ def execute(case, keep_log=False):
         res.count("skipped:pad_not_a_whole_number_of_ticks")
         res.log.add("world", "skip", "pad_bar padding is not a whole number of ticks at the lcm ppq")
         return res
-    score = build.build_score(asc, late_structure=bool(kn.get("late_structure")))
+    score = build.build_score(asc, late_structure=bool(kn.get("late_structure")), late_divs=bool(kn.get("late_divs")))
     if kn.get("late_structure"):
         res.probe("built_with_queries_before_structure")
     snapper = FP.Snapshotter()
